@@ -1,6 +1,7 @@
 package main
 
 import (
+	"os"
 	"fmt"
 	"go/ast"
 	"go/token"
@@ -131,65 +132,114 @@ func checkC19(w *World, r *Report) {
 		fd, _ := w.FuncDecl(w.Func("data/encoding", "convertToDataNode"))
 		simple := w.Func("data/encoding", "isIdentityrefSimpleFormValid")
 		ok := false
-		ast.Inspect(fd.Body, func(x ast.Node) bool {
-			rs, isR := x.(*ast.RangeStmt)
-			if !isR || len(rs.Body.List) != 1 {
-				return true
-			}
-			is, isIf := rs.Body.List[0].(*ast.IfStmt)
-			if !isIf || is.Init == nil || is.Else == nil {
-				return true
-			}
-			as, isA := is.Init.(*ast.AssignStmt)
-			if !isA {
-				return true
-			}
-			ce, isC := as.Rhs[0].(*ast.CallExpr)
-			if !isC {
-				return true
-			}
-			se, isS := ce.Fun.(*ast.SelectorExpr)
-			v := objOfIdent(p, rs.Value)
-			validates := isS && se.Sel.Name == "Validate" && len(ce.Args) == 3
-			if validates {
-				mentions := false
-				ast.Inspect(ce.Args[2], func(y ast.Node) bool {
-					if id, ok := y.(*ast.Ident); ok && p.TypesInfo.Uses[id] == v {
-						mentions = true
-					}
-					return true
-				})
-				validates = mentions
-			}
-			// error arm: only the re-validated simple form may be appended; else arm: only v
-			appendsOf := func(n ast.Node) []types.Object {
-				var out []types.Object
-				ast.Inspect(n, func(y ast.Node) bool {
-					if c2, ok := y.(*ast.CallExpr); ok {
-						if id, ok := c2.Fun.(*ast.Ident); ok && id.Name == "append" && len(c2.Args) == 2 {
-							out = append(out, objOfIdent(p, c2.Args[1]))
+		why := ""
+		if f := w.SSAFunc(w.Func("data/encoding", "convertToDataNode")); f != nil {
+			sym := NewSym(w)
+			sym.Expand = false // the verdicts of Validate and of the simple-form check are the atoms
+			n := 0
+			// the appends that build the value list handed to CreateDataNode
+			valAppends := map[*ssa.Call]bool{}
+			for _, b := range f.Blocks {
+				for _, in := range b.Instrs {
+					if c, isC := in.(*ssa.Call); isC && c.Call.StaticCallee() != nil && c.Call.StaticCallee().Name() == "CreateDataNode" && len(c.Call.Args) == 3 {
+						seen := map[ssa.Value]bool{}
+						var back func(v ssa.Value)
+						back = func(v ssa.Value) {
+							if v == nil || seen[v] {
+								return
+							}
+							seen[v] = true
+							switch x := v.(type) {
+							case *ssa.Phi:
+								for _, e := range x.Edges {
+									back(e)
+								}
+							case *ssa.Call:
+								if bi, ok := x.Call.Value.(*ssa.Builtin); ok && bi.Name() == "append" {
+									valAppends[x] = true
+									back(x.Call.Args[0])
+								}
+							}
 						}
-					}
-					return true
-				})
-				return out
-			}
-			errArm := appendsOf(is.Body)
-			okArm := appendsOf(is.Else)
-			var simpleObj types.Object
-			ast.Inspect(is.Body, func(y ast.Node) bool {
-				if a2, ok := y.(*ast.AssignStmt); ok && len(a2.Rhs) == 1 {
-					if c2, ok := a2.Rhs[0].(*ast.CallExpr); ok && calleeOf(p, c2) == simple {
-						simpleObj = objOfIdent(p, a2.Lhs[0])
+						back(c.Call.Args[2])
 					}
 				}
-				return true
-			})
-			if validates && len(errArm) == 1 && errArm[0] == simpleObj && simpleObj != nil && len(okArm) == 1 && okArm[0] == v {
-				ok = true
 			}
-			return true
-		})
+			for _, b := range f.Blocks {
+				for _, in := range b.Instrs {
+					c, isC := in.(*ssa.Call)
+					if !isC || !valAppends[c] || len(c.Call.Args) != 2 {
+						continue
+					}
+					lit, isL := c.Call.Args[1].(*ssa.Slice)
+					if !isL {
+						why = "a string list is appended as a whole at " + w.PosStr(c.Pos())
+						continue
+					}
+					l, inLoop := loopOf(f, b)
+					if !inLoop {
+						why = "a value is stored outside the loop that validates at " + w.PosStr(c.Pos())
+						continue
+					}
+					cond := sym.PathCond(l.Header, b, nil)
+					for _, e := range sliceLiteral(lit) {
+						n++
+						switch x := e.(type) {
+						case *ssa.UnOp:
+							// the element under validation: the very value handed to Validate, accepted
+							var val *ssa.Call
+							for _, bb := range f.Blocks {
+								for _, i2 := range bb.Instrs {
+									if vc, ok := i2.(*ssa.Call); ok && vc.Call.IsInvoke() && vc.Call.Method.Name() == "Validate" && len(vc.Call.Args) == 3 {
+										if vs, ok := vc.Call.Args[2].(*ssa.Slice); ok {
+											for _, ve := range sliceLiteral(vs) {
+												if ve == ssa.Value(x) {
+													val = vc
+												}
+											}
+										}
+									}
+								}
+							}
+							if val == nil {
+								why = "a value that was not handed to Validate is stored at " + w.PosStr(c.Pos())
+								continue
+							}
+							msg := pcImplies(cond, func(a *pcAtom) string {
+								if a.op == token.EQL && (a.x == ssa.Value(val) && isNilConst(a.y) || a.y == ssa.Value(val) && isNilConst(a.x)) {
+									return "accepted"
+								}
+								return ""
+							}, func(env map[string]bool) bool { return env["accepted"] })
+							if msg != "" {
+								why = "the value is stored although Validate may have rejected it (" + msg + ")"
+							}
+						case *ssa.Extract:
+							sc, isSimple := x.Tuple.(*ssa.Call)
+							if !isSimple || x.Index != 0 || sc.Call.StaticCallee() == nil || sc.Call.StaticCallee().Object() != types.Object(simple) {
+								why = "something other than the value or its re-validated simple form is stored at " + w.PosStr(c.Pos())
+								continue
+							}
+							msg := pcImplies(cond, func(a *pcAtom) string {
+								if ex, ok := a.v.(*ssa.Extract); ok && ex.Tuple == ssa.Value(sc) && ex.Index == 1 {
+									return "valid"
+								}
+								return ""
+							}, func(env map[string]bool) bool { return env["valid"] })
+							if msg != "" {
+								why = "the simple form is stored although it was not found valid (" + msg + ")"
+							}
+						default:
+							why = "something other than the value or its re-validated simple form is stored at " + w.PosStr(c.Pos())
+						}
+					}
+				}
+			}
+			ok = why == "" && n >= 2
+		}
+		if os.Getenv("YV_DEBUG") != "" {
+			fmt.Println("DEBUG R19.4:", why)
+		}
 		r.Check(ok, "R19.4", "convertToDataNode stores validated strings only", fd.Pos(), "Validate(v) ok ⇒ append v; else only the re-validated identityref simple form", "a value is stored that the schema did not validate in that form")
 		// simple form: requires module + ":" prefix and strips exactly that
 		sfd, _ := w.FuncDecl(simple)
